@@ -145,6 +145,11 @@ fn one_case(seed: u64, case: u64, trace_on: bool) -> (Out, Option<Fail>) {
                     }
                     8..=12 => w.drop_random_reader(),
                     13..=16 => w.drop_random_esp(),
+                    17..=19 => {
+                        // an application panic caught while a write transaction is live: the
+                        // session leaks that transaction's pages, which must not survive a reopen
+                        w.panic_txn()?;
+                    }
                     _ => {
                         let plan = w.plan();
                         w.run_txn(&plan)?;
@@ -270,6 +275,11 @@ fn one_case(seed: u64, case: u64, trace_on: bool) -> (Out, Option<Fail>) {
             w.verify_visible()?;
         }
         // final clean close: the file itself must carry the right allocator state
+        if w.leak_latched {
+            // a session that leaked through a caught panic does not record a clean shutdown; let
+            // the documented repair run first so that the closed file can be judged as clean
+            w.check_integrity()?;
+        }
         w.close();
         let img = w.be.image();
         match check_closed_file(&img) {
